@@ -331,10 +331,13 @@ func (s *socket) MaybeUpgrade(transport transports.Transport) {
 		if data.Type == packet.PING && sb.String() == "probe" {
 			socket_log.Debug("got probe ping packet, sending pong")
 			transport.Send([]*packet.Packet{{Type: packet.PONG, Data: strings.NewReader("probe")}})
-			s.Emit("upgrading", transport)
 
 			utils.ClearInterval(checkIntervalTimer.Load())
 			checkIntervalTimer.Store(utils.SetInterval(check, 100*time.Millisecond))
+
+			// emitted last: a listener closing the session runs cleanup(), which must
+			// find the interval above in order to clear it
+			s.Emit("upgrading", transport)
 
 		} else if packet.UPGRADE == data.Type && s.ReadyState() != "closed" {
 			socket_log.Debug("got upgrade packet - upgrading")
